@@ -244,12 +244,14 @@ Section Hid.
     let '(d', r) := dev_recv (he_dev e) w in
     (ROk tt, mkHenv d' (he_in e ++ r) (w :: he_out e) (he_cons e)).
 
-  (* MbootBulkProtocol._parse_frame: unpack_from("<2BH", raw); data = raw[4 : 4 + plen]  (no length check: D24) *)
+  (* MbootBulkProtocol._parse_frame: a report shorter than its header, or than the length its header announces, is a
+     connection error; unpack_from("<2BH", raw); data = raw[4 : 4 + plen] *)
   Definition h_parse_frame (raw : list N) : M henv rx :=
-    if nlen raw <? 4 then mraise (XCrash K_STRUCT) else
+    if nlen raw <? 4 then mraise XConn else
     let rid := nth 0 raw 0 in
     let plen := le_dec (firstn 2 (skipn 2 raw)) in
     if plen =? 0 then mraise XAbort else
+    if nlen raw <? 4 + plen then mraise XConn else
     let data := firstnN plen (skipn 4 raw) in
     if rid =? RID_CMD_IN then parse_rx data else mret (RxData data).
   Definition h_read : M henv rx := raw <- hread ;; h_parse_frame raw.
@@ -298,7 +300,7 @@ Section McuBoot.
     match r with
     | RExn XTimeout => finish_cmd (no_response (pkt_tag p)) (set_status s1 SC_NO_RESPONSE)
     | RExn x => (RExn x, s1)
-    | ROk (RxData _) => (RExn (XCrash K_ASSERT), s1)
+    | ROk (RxData _) => (RExn XConn, s1)        (* a data packet where a response is expected *)
     | ROk (RxResp rs) => finish_cmd rs s1
     end.
 
@@ -329,7 +331,11 @@ Section McuBoot.
   Definition read_data (fuel : nat) (tag length : N) : M mbs (list N) :=
     dr <- read_data_loop tag fuel [] ;;
     st <- get_status ;;
-    if ((nlen (fst dr) <? length) || negb (st =? SC_SUCCESS)) && ce then mraise (XCmd (r_status (snd dr)))
+    if (nlen (fst dr) <? length) || negb (st =? SC_SUCCESS) then
+      (* fewer bytes than announced never leaves status SUCCESS *)
+      let st' := if st =? SC_SUCCESS then SC_FAIL else st in
+      put_status st' ;;;
+      if ce then mraise (XCmd st') else mret (firstnN length (fst dr))
     else mret (firstnN length (fst dr)).
 
   Fixpoint write_chunks (abort : bool) (chunks : list (list N)) : M E unit :=
@@ -343,7 +349,7 @@ Section McuBoot.
     let expect := negb (tag =? CT_NO_COMMAND) in
     let got (all_sent : bool) (v : rx) : M mbs bool :=
       match v with
-      | RxData _ => mraise (XCrash K_ASSERT)
+      | RxData _ => mraise XConn
       | RxResp rs => put_status (r_status rs) ;;;
                      if negb (r_status rs =? SC_SUCCESS) then (if ce then mraise (XCmd (r_status rs)) else mret false)
                      else mret all_sent
@@ -404,7 +410,7 @@ Section McuBoot.
     rs <- process_cmd p ;;
     if is_success rs then
       (if r_cls rs =? cls then (d <- read_data fuel (pkt_tag p) (r_second rs) ;; mret (AVBytes d))
-       else mraise (XCrash K_ASSERT))
+       else mraise XMboot)
     else mret AVNone.
 
   (* read_memory through the USB work-around: one command per max-packet-size block *)
@@ -418,7 +424,7 @@ Section McuBoot.
         if is_success rs then
           (d <- read_data (S fuel) CT_READ_MEMORY data_len ;;
            st <- get_status ;;
-           if st =? SC_NO_RESPONSE then mret (AVBytes (acc ++ d))
+           if negb (st =? SC_SUCCESS) then mret (AVBytes (acc ++ d))
            else read_usb_loop f address mem_id ps remainder packets (idx + 1) (acc ++ d))
         else mret (AVBytes [])
     end.
@@ -436,7 +442,7 @@ Section McuBoot.
     if is_success rs then
       (if r_cls rs =? 4 then
          match r_values rs with v :: _ => mret (AVInt v) | [] => mraise (XCrash K_INDEX) end
-       else mraise (XCrash K_ASSERT))
+       else mraise XMboot)
     else mret AVNone.
 
   Definition efuse_program_once (index value : N) (verify : bool) : M mbs apival :=
@@ -454,7 +460,7 @@ Section McuBoot.
   Definition flash_read_once (index count : N) : M mbs apival :=
     if negb ((count =? 4) || (count =? 8)) then mraise XSpsdk else
     rs <- process_cmd (pkt_flash_read_once index count) ;;
-    if is_success rs then (if r_cls rs =? 4 then mret (AVBytes (r_data rs)) else mraise (XCrash K_ASSERT))
+    if is_success rs then (if r_cls rs =? 4 then mret (AVBytes (r_data rs)) else mraise XMboot)
     else mret AVNone.
 
   (* CmdPacket(tag, flags, *args, data=d): d is zero padded to a multiple of 4 and appended as little-endian words *)
